@@ -735,6 +735,19 @@ func (d *DefaultServerDispatcher) CompleteRequest(clientID string, requestID str
 	d.pendingRequestState.DeletePendingRequest(clientID, requestID)
 	d.completionMutex.Unlock()
 	log.Debugf("completed request %s for %s", callID, clientID)
-	// Signal that next message in queue may be sent
-	d.readyForDispatch <- clientID
+	// Signal that next message in queue may be sent. The message pump is the only consumer of this channel and
+	// completes requests itself (timeout, failed write): it must never wait for room in it, or it waits for itself.
+	select {
+	case d.readyForDispatch <- clientID:
+	default:
+		d.mutex.RLock()
+		stoppedC := d.stoppedC
+		d.mutex.RUnlock()
+		go func() {
+			select {
+			case d.readyForDispatch <- clientID:
+			case <-stoppedC:
+			}
+		}()
+	}
 }
